@@ -450,15 +450,22 @@ func (d *Decoder) decodeSet(mem MemCache, msg *Message) error {
 			if err == nil {
 				mem.insert(tr.TemplateID, d.raddr, tr)
 			}
-		} else if setId >= 4 && setId <= 255 {
+		} else if setId >= 2 && setId <= 255 {
 			// Reserved set, do not read any records
 			break
 		} else {
 			// Data set
 			var data []DecodedField
+			recordStart := d.reader.ReadCount()
 			data, err = d.decodeData(tr)
 			if err == nil {
-				msg.DataSets = append(msg.DataSets, data)
+				if d.reader.ReadCount() == recordStart {
+					// a record that occupies no octets can not be delimited: stop instead of looping forever
+					err = nonfatalError{fmt.Errorf("%s netflow template id# %d describes zero-length records",
+						d.raddr.String(), setHeader.FlowSetID)}
+				} else {
+					msg.DataSets = append(msg.DataSets, data)
+				}
 			}
 		}
 	}
